@@ -29,7 +29,7 @@ def words_for(rng, n, awkward=0.4, exclude=''):
 
 
 def en_token(rng, word):
-    return {'word': word, 'lemma': rng.choice([word.lower(), 'XX', 'be', word, '*', '']), 'pos': rng.choice(['NN', 'VBZ', 'DT', 'IN', ',', '.', 'XX']),
+    return {'word': word, 'lemma': rng.choice([word.lower(), 'XX', 'be', word, '*', '']), 'pos': rng.choice(['NN', 'VBZ', 'DT', 'IN', ',', '.', 'XX', '_', 'PRP$', '-LRB-', '``']),
             'entity': rng.choice(['O', 'I-PER', 'XX']), 'chunk': rng.choice(['I-NP', 'I-VP', 'XX'])}
 
 
